@@ -464,4 +464,8 @@ def run(chk, fb, tier):
     _d7(chk, fb)
     chk.rule("D8", "Pij(i, j) and the entry getPij() stores at (i, j) are the same expression in every built-in transition model")
     _d8(chk, fb)
+    from . import argswap as _argswap
+    chk.rule("DA", "argument/parameter name agreement at forwarding calls in the anchored units (same-typed parameters must not be swapped)")
+    _af = ('src/Bpp/Numeric/Hmm/HmmLikelihood.h', 'src/Bpp/Numeric/Hmm/HmmLikelihood.cpp', 'src/Bpp/Numeric/Hmm/RescaledHmmLikelihood.cpp', 'src/Bpp/Numeric/Hmm/LowMemoryRescaledHmmLikelihood.cpp', 'src/Bpp/Numeric/Hmm/LogsumHmmLikelihood.cpp', 'src/Bpp/Numeric/Hmm/AbstractHmmTransitionMatrix.cpp', 'src/Bpp/Numeric/Hmm/FullHmmTransitionMatrix.cpp', 'src/Bpp/Numeric/Hmm/AutoCorrelationTransitionMatrix.cpp', 'src/Bpp/Numeric/NumTools.h')
+    _argswap.check(chk, fb, "DA", [f_ for f_ in fb.concrete_fns() if f_.body is not None and any(f_.relfile.endswith(x_) for x_ in _af)], 1)
     chk.assume("memo keys are compared with variable names; the empty string is never a variable name")
